@@ -6,6 +6,7 @@ import (
 	"strings"
 	"testing"
 
+	"github.com/256dpi/lungo"
 	"github.com/256dpi/lungo/mongokit"
 	"go.mongodb.org/mongo-driver/bson"
 	"go.mongodb.org/mongo-driver/mongo/options"
@@ -271,6 +272,53 @@ func runC14Driver(c bson.D, x *Ctx) (err error) {
 	}
 	if e1 != nil {
 		x.Class("rejected")
+		// a rejected projection rejects a find-and-modify call as a whole:
+		// nothing is deleted, updated or replaced, neither by the plain call
+		// nor by one inside a session transaction that goes on and commits
+		idFilter := bson.D{{Key: "_id", Value: getD(doc, "_id")}}
+		calls := []func(c context.Context) error{
+			func(c context.Context) error {
+				return coll.FindOneAndDelete(c, idFilter, options.FindOneAndDelete().SetProjection(proj)).Err()
+			},
+			func(c context.Context) error {
+				return coll.FindOneAndUpdate(c, idFilter, bson.D{{Key: "$set", Value: bson.D{{Key: "zz", Value: int32(1)}}}}, options.FindOneAndUpdate().SetProjection(proj)).Err()
+			},
+			func(c context.Context) error {
+				return coll.FindOneAndReplace(c, idFilter, bson.D{{Key: "zz", Value: int32(2)}}, options.FindOneAndReplace().SetProjection(proj)).Err()
+			},
+		}
+		names := []string{"FindOneAndDelete", "FindOneAndUpdate", "FindOneAndReplace"}
+		if coll.FindOne(ctx, idFilter, options.FindOne().SetProjection(proj)).Err() == nil {
+			// the projection fails on the other document only
+			return nil
+		}
+		for k, call := range calls {
+			if cerr := call(ctx); cerr == nil {
+				return fmt.Errorf("%s accepted the projection %s that Find rejects (%v)", names[k], show(proj), e1)
+			}
+			sess, serr := client.StartSession()
+			if serr != nil {
+				return fmt.Errorf("harness: %v", serr)
+			}
+			_, werr := sess.WithTransaction(ctx, func(sc lungo.ISessionContext) (interface{}, error) {
+				if cerr := call(sc); cerr == nil {
+					return nil, fmt.Errorf("%s inside a transaction accepted the projection %s that Find rejects", names[k], show(proj))
+				}
+				return nil, nil
+			})
+			sess.EndSession(ctx)
+			if werr != nil {
+				return fmt.Errorf("%v", werr)
+			}
+			now, e := dump()
+			if e != nil {
+				return e
+			}
+			if now != before {
+				return fmt.Errorf("%s with the rejected projection %s (plain, then inside a committed session transaction) changed the stored documents", names[k], show(proj))
+			}
+		}
+		x.Class("rejected-projection-find-and-modify")
 		return nil
 	}
 	if len(r1) != 2 || len(r2) != 2 {
